@@ -204,7 +204,8 @@ pub fn gen_nlib(t: &mut Tape) -> (NLib, NSwarm) {
         if !elems.is_empty() && t.chance(1, 60) {
             let np = *t.pick(&[29usize, 64, 127, 128, 255, 256, 300]);
             elems[0].props = (0..np).map(|j| ((j % 400) as i16, format!("value_number_{:04}", j).into_bytes())).collect();
-            let target = *t.pick(&[0usize, 255, 256, 1000]);
+            // (hundreds of elements are expensive under byte-sized I/O schedules: one such struct in eight of these)
+            let target = if t.chance(1, 8) { *t.pick(&[255usize, 256, 1000]) } else { 0 };
             let base = elems.clone();
             let mut k = 1usize;
             while elems.len() < target {
